@@ -357,16 +357,31 @@ def compare_signature(s, rec, oracle_results, oracles, acc):
                     return viol, "unparsed"
                 views.append(c)
         if caller_side:
+            # every view is the set of places that hold the value at the call instruction: the real location(s) plus, possibly,
+            # registers the compiler used as temporaries. Memory locations are never temporaries (copies made for passing by
+            # reference are removed by the probe reader), so: if every compiler wrote the value to the outgoing area they
+            # must agree on where, and then only those memory locations count; registers count only when no compiler used memory.
             merged = {}
+            bad = None
             for b in views[0]:
-                sset = views[0][b]
-                for v in views[1:]:
-                    sset = sset & v.get(b, set())
-                merged[b] = sset
-            if not merged.get(0):
+                sets = [v.get(b, set()) for v in views]
+                mems = [set(x for x in s_ if x[0] != "reg") for s_ in sets]
+                if all(mems):
+                    common_mem = set.intersection(*mems)
+                    if not common_mem and b == 0:
+                        bad = "memory locations differ"
+                    merged[b] = common_mem
+                elif any(mems):
+                    if b == 0:
+                        bad = "one compiler uses memory, another registers"
+                    merged[b] = set()
+                else:
+                    merged[b] = set.intersection(*sets)
+            if bad or not merged.get(0):
                 acc["ambiguous"] += 1
+                acc["ambiguous_by_type"]["va:" + ap.type_class(t)] = acc["ambiguous_by_type"].get("va:" + ap.type_class(t), 0) + 1
                 if len(acc["ambiguous_samples"]) < 12:
-                    acc["ambiguous_samples"].append("%s arg %d: %s" % (text, k, " vs ".join(str(sorted(fmt_loc(x) for x in v.get(0, []))) for v in views)))
+                    acc["ambiguous_samples"].append("%s arg %d (%s): %s" % (text, k, bad or "no common location", " vs ".join("%s=%s" % (o.compiler, sorted(fmt_loc(x) for x in v.get(0, []))) for o, v in zip(oracles, views))))
                 return viol, "ambiguous"
             per_arg.append(merged)
         else:
@@ -1419,6 +1434,7 @@ def workload_c(chk, exe_plain, exe_asan, tier, scale, cov):
         for c in cases:
             if "err" in c and "vals" in c and not c["err"].startswith("detail:"):
                 feats = set()
+                byte_hi = False
                 for v in c["vals"]:
                     if "dst" not in v:
                         continue
@@ -1429,10 +1445,18 @@ def workload_c(chk, exe_plain, exe_asan, tier, scale, cov):
                         feats.add("stack->stack:" + cls_of(v["src"]["t"]))
                     if v.get("cvt"):
                         feats.add("convert")
-                    if arch == "x86" and tsize(v["src"]["t"]) == 1 and ((v["src"]["k"] == "reg" and v["src"]["id"] >= 4) or (v["dst"]["k"] == "reg" and v["dst"]["g"] == "gp" and v["dst"]["id"] >= 4)):
-                        feats.add("byte-argument-in-esi-edi-ebp")
+                    if arch == "x86" and min(tsize(v["src"]["t"]), tsize(v["eff"])) == 1 and (
+                            (v["src"]["k"] == "reg" and v["src"]["g"] == "gp" and v["src"]["id"] >= 4) or
+                            (v["dst"]["k"] == "reg" and v["dst"]["g"] == "gp" and v["dst"]["id"] >= 4)):
+                        byte_hi = True       # sil/dil/bpl do not exist in 32-bit mode
+                vec_srcs = set(v["src"]["id"] for v in c["vals"] if v["src"]["k"] == "reg" and v["src"]["g"] == "vec" and not v["src"].get("ind"))
+                vec_moved = any("dst" in v and v["src"]["k"] == "reg" and v["src"]["g"] == "vec" and v["dst"]["k"] == "reg" and v["dst"]["id"] != v["src"]["id"] for v in c["vals"])
+                if len(vec_srcs) >= {"x86": 8, "x64": 16, "a64": 32}[arch] and vec_moved and c["err"].endswith("InvalidState"):
+                    feats = {"all-vector-registers-hold-arguments"}    # no scratch register exists; swapping without one is not implemented
                 if not feats and c.get("sa_out", -1) >= 0:
                     feats.add("sa-register-requested")
+                if c["err"].endswith("InvalidRexPrefix") and byte_hi:
+                    feats = {"byte-argument-in-esi-edi-ebp"}     # the error code itself says: an 8-bit view of esi/edi/ebp was needed
                 feat = sorted(feats)[0] if feats else "other"
                 if c["err"] == "hang":
                     feat = "does-not-terminate"
